@@ -1,6 +1,7 @@
 """C20 Label parsing and formatting are mutually inverse."""
 import itertools
 import re
+from .. import model
 from ..runner import Result
 from ..bridge import T, quiet
 
@@ -19,14 +20,15 @@ def plan(tier, seed):
         for b in ATOMS:
             chunks.append({'kind': 'strings', 'prefix': [a, b], 'maxlen': L})
     chunks.append({'kind': 'get_label'})
+    chunks += [{'kind': 'pipeline', 'n': n} for n in ((3, 4) if tier == 'quick' else (3, 4, 5))]
     chunks += [{'kind': 'reader', 'sep': sep, 'maxlen': 3 if tier == 'quick' else 4} for sep in SEPS]
     return {
         'chunks': chunks,
         'rule': 'every string of <= %d atoms over %r, parsed with gf separator absent/-/#; '
                 'formatted with every subset of always_label/always_gf; every single component '
                 'emptied; plus get_label on every combination of node kind x edge x flags x all '
-                'option subsets; every string of <= %d atoms as a constituent label in bracketed text read with gf_split x the three separators (label and edge must be the parse with the function taken out). non-trivial = distinct strings with at least one separator, '
-                'index, marker or default literal' % (L, ATOMS, 3 if tier == 'quick' else 4),
+                'option subsets; every string of <= %d atoms as a constituent label in bracketed text read with gf_split x the three separators (label and edge must be the parse with the function taken out); the split decorations on every head-marked hierarchy n <= %d after boyd_split and after a second boyd_split on the same objects (reference of C05). non-trivial = distinct strings with at least one separator, '
+                'index, marker or default literal' % (L, ATOMS, 3 if tier == 'quick' else 4, 4 if tier == 'quick' else 5),
         'bound': 'strings of <= %d atoms (alphabet of %d atoms)' % (L, len(ATOMS)),
         'exhaustive': True,
         'assumptions': ['labels contain no whitespace'],
@@ -245,6 +247,10 @@ def check_readers(sepopt, maxlen, only=None):
 
 def check_case(case):
     with quiet():
+        if case.get('pipeline'):
+            from . import c05
+            return [v for v in c05.check_one(case['mt'], case['root_attach'], case.get('order'), case.get('rules'))[0]
+                    if v['kind'] in ('split-marking', 'split-marking-written', 'second-split')]
         if case.get('reader'):
             return check_readers(case['sep'], case['maxlen'], case.get('only'))[0]
         if 'get_label' in case:
@@ -277,6 +283,24 @@ def run_chunk(chunk):
             for v in vs:
                 res.violation(v['kind'], v['where'], v['case'], v['detail'], v['what'])
             res.sample({'bracket_reader_gf_split': True, 'gf_separator': chunk['sep'], 'labels': n})
+            return res
+        if chunk['kind'] == 'pipeline':
+            # the decorations on real trees: after boyd_split, and after a second boyd_split on the same objects
+            from . import c05
+            from .. import sweep as _sweep
+            mt = None
+            for sh in _sweep.base_shapes(chunk['n']):
+                for choice in c05.head_choices(sh):
+                    mt = c05.assign_heads(sh, choice)
+                    vs, disc = c05.check_one(mt.to_json(), False, None)
+                    res.evals += 1
+                    res.nontrivial += 1 if disc else 0
+                    vs = [v for v in vs if v['kind'] in ('split-marking', 'split-marking-written', 'second-split')]
+                    res.outcome(('pipeline', mt.key(), len(vs)))
+                    for v in vs:
+                        res.violation(v['kind'], v['where'], dict(v['case'], pipeline=True), v['detail'], v['what'])
+            if mt is not None:
+                res.sample({'split_decorations_on': model.mt_str(mt.root, mt.toks)})
             return res
         if chunk['kind'] == 'get_label':
             for c in get_label_cases():
